@@ -226,8 +226,11 @@ def oracle(ctx):
         # the state of the output directory is part of the input: in a third of the runs the places of the links to be made are
         # already taken by links of an earlier generation — dangling ones (their service is gone), one pointing at itself, live
         # ones pointing elsewhere inside the output directory; "creates, replaces" means each of them is replaced
-        stale_kind = [None, None, 'dangling', 'loop', 'live'][sum(map(ord, svc + inst)) % 5]
-        if stale_kind:
+        stale_kind = [None, None, 'dangling', 'loop', 'live', 'blocked'][sum(map(ord, svc + inst)) % 6]
+        if stale_kind == 'blocked':
+            # the service file cannot be written (a directory sits in its place): no service is generated — and so no link for it either
+            os.makedirs(os.path.join(out, svc))
+        elif stale_kind:
             os.makedirs(out)
             with open(os.path.join(out, 'older.service'), 'w') as f:
                 f.write('[Service]\n')
@@ -244,8 +247,8 @@ def oracle(ctx):
         for l in links:
             resolved[l] = os.path.realpath(os.path.join(out, l))
         shutil.rmtree(base, ignore_errors=True)
-        return base, out, rc, se, before, after, links, resolved
-    for (svc, inst), (base, out, rc, se, before, after, links, resolved) in zip(cases, e2e.pmap(run, cases)):
+        return base, out, rc, se, before, after, links, resolved, stale_kind == 'blocked'
+    for (svc, inst), (base, out, rc, se, before, after, links, resolved, blocked_) in zip(cases, e2e.pmap(run, cases)):
         res.oracle_evals += 1
         fails = []
         sn = service_name_of(svc, inst)
@@ -258,6 +261,12 @@ def oracle(ctx):
             fails.append(f'touched outside the output directory: {outside}')
         if rc not in (0, 1):
             fails.append(f'exit status {rc}: {se[-300:]}')
+        if blocked_:
+            if links or rc != 1:
+                fails.append(f'the service file {svc} could not be written (a directory is in its place): exit status 1 and no links at all, got exit {rc} and {sorted(links)}')
+            for f in fails:
+                res.oracle_failures.append(dict(op='e2e', input=dict(service=svc, install=inst, fault='a directory at the service path'), impl_output=dict(links=links, exit=rc, stderr=se[-500:]), oracle_expectation=f))
+            continue
         if svc not in [k[len(relout) + 1:] for k, v in after.items() if k.startswith(relout + '/') and v[0] == 'f']:
             fails.append(f'the service file {svc} is missing or not a regular file after the run')
         want = spec_links(svc, inst)
